@@ -214,6 +214,54 @@ CLAIMED = {
              "FRESH constructors); calls are interpreted by their summaries (compositional), so mutual recursion is not modelled "
              "(the library has none among the listed functions).",
         ref="§4 C19"),
+    "C02": dict(
+        technique="Lean 4 theorems (precedence-climbing parser = grammar precedence for every expression; transformer "
+                  "semantics for every module of continuous assignments incl. use-before-definition and the four-gate mux; "
+                  "port-list rejection; lexer white-space invariance) about a model of verilog.lark/verilog.py whose grammar "
+                  "text, regexes and gate tables are regenerated from the sources each run + exact differential "
+                  "correspondence (text -> circuit) + valuation-oracle search on generated netlists",
+        text="Proof: `parse_print`, `parse_parens` (the parser returns exactly the expression whose canonical rendering it "
+             "reads: ~ ! > & > ^ ~^ > | > ?:, left-associative, any nesting), `transform_assign_sem` (every module of "
+             "continuous assignments of the subset, any order of assignments, repeated sub-expressions: the transformer "
+             "succeeds, inputs/outputs are exactly the declared ports and in every consistent valuation each assigned net "
+             "has the value Verilog semantics gives its right-hand side), `ports_checked` (every disagreement between port "
+             "list and declarations is an error), `lex_ws_irrelevant`, `tables_grammar/regex_module/primitive` (static tie). "
+             "Partial: primitive-gate instances and blackbox instances are proved only as part of the C03 round trip "
+             "(`CG.C03.roundtrip_*`), not for arbitrary statement order; lark's LALR tables and lexer versus the hand-written "
+             "parser/lexer are tied by the differential run only.",
+        note=TRUST + " `transform_assign_sem` assumes no declared net is named like a synthetic name (NoCapture): that the real "
+             "parser mis-handles such names is known finding K8a-c; `LexConsts` restricts constants to those the lexer can "
+             "produce (counterexample theorem `transform_assign_sem_needs_consts`).",
+        ref="§4 C02"),
+    "C03": dict(
+        technique="Lean 4 theorems (writer followed by reader is the identity on the graph, for every emission order and "
+                  "every reader order; with constants: same interface and refinement) about models of io.circuit_to_verilog "
+                  "and the verilog.py transformer + exact differential correspondence on both (statement list, rendered "
+                  "text, parsed circuit) + round-trip valuation search through to_file/from_file",
+        text="Proof: `roundtrip_struct` (every writable circuit without constant nodes — any gate mix and arity, cyclic or "
+             "not, outputs that are inputs, blackbox instances with connected or unconnected pins — written in gate-primitive "
+             "form and read back gives the same name, nodes, types, output marks, edges and registry), `roundtrip_consts` "
+             "(with constants: same name/inputs/outputs/registry and every consistent valuation of the result restricts to "
+             "one of the original), `write_decls` (both styles: declared inputs/outputs/wires are exactly the circuit's), "
+             "`dispatch_table`. Partial: the behavioural (assign) style round trip and escaped identifiers are covered by "
+             "the correspondence/search only; the theorem is at statement level (rendering + lexing are differential).",
+        note=TRUST + " `Writable`: lint-clean, plain identifiers not colliding with tie_0/tie_1/tie_x, registry and pin nodes agree.",
+        ref="§4 C03"),
+    "C11": dict(
+        technique="Lean 4 theorems (semantics of both sensitivity transforms for every circuit and node; sensitize and the "
+                  "descending sensitivity search correct with any sound and complete solver) about line-by-line models of "
+                  "tx.sensitization_transform / tx.sensitivity_transform / props.sensitize / props.sensitivity + exact "
+                  "structural correspondence + brute-force definition search (incl. influence / avg_sensitivity)",
+        text="Proof: `sensitization_sem` + `sensitization_complete` (every consistent valuation of the result is a pair "
+             "(valuation of c, valuation of c with n inverted) on tied startpoints with `sat` = some output differs, and "
+             "every such pair arises), `sensitize_spec` (None iff no sensitising valuation exists, otherwise the returned "
+             "one sensitises), `sensitivity_transform_sem` (dif_out_s = flipping s flips n; sen_out bits = their number), "
+             "`sensitivity_spec` (returned value = maximum over all valuations, for every cone size incl. powers of two), "
+             "`sensitivity_startpoint`. Partial: the endpoint-subset form of sensitization_transform and the exact-mode "
+             "influence / avg_sensitivity quotient are modelled and checked by correspondence and brute-force search, "
+             "their theorems are not yet proved.",
+        note=TRUST + " `Good`: lint-clean, blackbox-free, no `x` constants; `sensitivity_spec` additionally acyclic.",
+        ref="§4 C11"),
 }
 
 NOT_YET = "check not built yet in this round (see DESIGN.md §4 for the plan); will be claimed when its Lean model and harness exist"
